@@ -47,6 +47,7 @@ structure St where
   digs : Array Nat                 -- digest per tree (trees are values: recomputed only for the mutated one)
   curs : Array (Nat × Nat × Bool)  -- global cursor id -> (tree, index among the tree's cursors, open)
   isSet : Bool                     -- `BTreeSet` (`remove` checks membership first) or `BTreeDict`
+  dead : List Nat := []            -- handles dropped by `Z,h` (the program forgot the tree; values are unaffected)
 
 def St.digests (s : St) : String := ",".intercalate (s.digs.toList.map toString)
 
@@ -82,7 +83,7 @@ def withCur (s : St) (c : Nat) (f : TreeC → Nat → TreeC × String) : St × S
     | none => (s, "!")
   | _ => (s, "!")
 
-def step (s : St) (tok : String) : St × String :=
+def stepLive (s : St) (tok : String) : St × String :=
   match tok.splitOn "," with
   | op :: fs =>
     match nats fs with
@@ -181,6 +182,30 @@ def step (s : St) (tok : String) : St × String :=
       | _, _ => (s, "!")
   | [] => (s, "!")
 
+/-- the ops whose first argument is a tree handle -/
+def treeOps : List String := ["I", "D", "X", "O", "R", "G", "g", "L", "T", "K", "V", "S", "M", "C", "F", "c"]
+
+/-- `Z,h`: the program drops its reference to tree `h` (`del` + `gc.collect()` in the implementation).  Trees are
+values here, so nothing changes except that the handle and its cursors can no longer be used; every digest of the
+dropped tree stays as it was. -/
+def step (s : St) (tok : String) : St × String :=
+  match tok.splitOn "," with
+  | [op, hs] =>
+    match hs.toNat? with
+    | some h =>
+      if op == "Z" then
+        if h < s.trees.size && !s.dead.contains h then
+          ({ s with dead := h :: s.dead, curs := s.curs.map fun (t, i, o) => (t, i, o && t != h) }, "ok")
+        else (s, "!")
+      else if treeOps.contains op && s.dead.contains h then (s, "!")
+      else stepLive s tok
+    | none => stepLive s tok
+  | op :: hs :: _ =>
+    match hs.toNat? with
+    | some h => if treeOps.contains op && s.dead.contains h then (s, "!") else stepLive s tok
+    | none => stepLive s tok
+  | _ => stepLive s tok
+
 def runHist (t : Nat) (io : Bool) (ca ce : Bool) (isSet : Bool) (ops : List String) : String :=
   let tr := Tree.empty t io ca ce
   let s0 : St := { trees := #[⟨tr, []⟩], digs := #[digest tr], curs := #[], isSet := isSet }
@@ -216,6 +241,7 @@ structure CowSt where
   ser : Array Nat
   nxt : Nat
   isSet : Bool
+  dead : List Nat := []
 
 open Model.BTreeCow in
 /-- dump every tree; returns the new serial state, the line of tree `h`, and the digests of all trees -/
@@ -242,7 +268,7 @@ def cowMut (s : CowSt) (h : Nat) (res : World × Handle × Outcome (Option Elt))
   cowMutS s h res.1 res.2.1 (outcomeStr res.2.2)
 
 open Model.BTreeCow in
-def cowStep (s : CowSt) (tok : String) : CowSt × String :=
+def cowStepLive (s : CowSt) (tok : String) : CowSt × String :=
   match tok.splitOn "," with
   | op :: fs =>
     match nats fs with
@@ -298,6 +324,19 @@ def cowStep (s : CowSt) (tok : String) : CowSt × String :=
         | some hd => ({ s with hs := s.hs.setIfInBounds h { hd with immutable := true } }, "ok")
       | _, _ => (s, "!")
   | [] => (s, "!")
+
+/-- `Z,h` at mechanism level: the handle is forgotten, its cells stay in the heap (they may be shared) -/
+def cowStep (s : CowSt) (tok : String) : CowSt × String :=
+  match tok.splitOn "," with
+  | op :: hs :: rest =>
+    match hs.toNat? with
+    | some h =>
+      if op == "Z" && rest.isEmpty then
+        if h < s.hs.size && !s.dead.contains h then ({ s with dead := h :: s.dead }, "ok") else (s, "!")
+      else if s.dead.contains h then (s, "!")
+      else cowStepLive s tok
+    | none => cowStepLive s tok
+  | _ => cowStepLive s tok
 
 open Model.BTreeCow in
 def runCow (t : Nat) (io ca ce isSet : Bool) (ops : List String) : String :=
